@@ -226,7 +226,7 @@ func c12WriteProtection(c *eng.Ctx, r *eng.Report) {
 		switch {
 		case row.Flags["writes"]:
 			r.Pass(rule, key, c.Pos(row.Pos), "mutating handler ("+path+") and row has writes:true")
-		case handlerChecksReadOnly(row.Exec, cone, setters):
+		case handlerChecksReadOnly(row.Exec, cone, setters, row.Name == "CALL"):
 			r.Pass(rule, key, c.Pos(row.Pos), "mutating handler ("+path+") returns ErrWriteProtection under interpreter.readOnly before any mutator")
 		case row.Name == "CALL" && callSpecial:
 			r.Pass(rule, key, c.Pos(row.Pos), "CALL: value transfer refused in Run when readOnly (op == CALL && stack.Back(2).Sign() != 0)")
@@ -243,7 +243,9 @@ func c12WriteProtection(c *eng.Ctx, r *eng.Report) {
 // handlerChecksReadOnly: the handler returns ErrWriteProtection on the true
 // edge of a load of interpreter.readOnly, and that test dominates every call
 // in the handler that leads to a raw setter.
-func handlerChecksReadOnly(h *ssa.Function, cone *eng.Cone, setters map[*ssa.Function]bool) bool {
+// valueTransferOnly: for CALL the refusal may be limited to calls that carry
+// value (`readOnly && !value.IsZero()`), the only way a plain CALL writes.
+func handlerChecksReadOnly(h *ssa.Function, cone *eng.Cone, setters map[*ssa.Function]bool, valueTransferOnly bool) bool {
 	var guard *ssa.If
 	for _, b := range h.Blocks {
 		if len(b.Instrs) == 0 {
@@ -263,6 +265,23 @@ func handlerChecksReadOnly(h *ssa.Function, cone *eng.Cone, setters map[*ssa.Fun
 				guard = iff
 			}
 		}
+		// readOnly && <the call carries value>: the refusal sits one test further down
+		if guard == nil && valueTransferOnly {
+			if i2, ok := t.Instrs[len(t.Instrs)-1].(*ssa.If); ok {
+				d := eng.Desc(i2.Cond)
+				for si, t2 := range t.Succs {
+					ret, isR := t2.Instrs[len(t2.Instrs)-1].(*ssa.Return)
+					if !isR || len(ret.Results) != 2 || !strings.Contains(eng.Desc(eng.RetValue(ret, 1)), "ErrWriteProtection") {
+						continue
+					}
+					// the refusing side is the one on which the value is non-zero
+					nonZero := (strings.Contains(d, ".IsZero(") && si == 1 && !strings.HasPrefix(d, "!")) || (strings.Contains(d, ".IsZero(") && si == 0 && strings.HasPrefix(d, "!")) || (strings.Contains(d, ".Sign(") && si == 0)
+					if nonZero {
+						guard = iff
+					}
+				}
+			}
+		}
 	}
 	if guard == nil {
 		return false
@@ -277,7 +296,7 @@ func handlerChecksReadOnly(h *ssa.Function, cone *eng.Cone, setters map[*ssa.Fun
 		}
 		// any non-trivial call must come after the guard unless it is a pure stack/log helper
 		if !guard.Block().Dominates(s.Instr.Block()) || guard.Block() == s.Instr.Block() {
-			if strings.Contains(n, "Stack") || strings.Contains(n, "middleware/log") || strings.Contains(n, "stack") {
+			if strings.Contains(n, "Stack") || strings.Contains(n, "middleware/log") || strings.Contains(n, "stack") || strings.Contains(n, "holiman/uint256.Int)") {
 				continue
 			}
 			return false
@@ -360,9 +379,23 @@ func c12RunGuardsAs(c *eng.Ctx, r *eng.Report, run *ssa.Function, rule string) b
 			}
 		}
 	}
+	// the central test matters only while some row relies on its `writes` flag; a table whose mutating handlers
+	// all refuse for themselves (upstream's later layout) is decided row by row in R12.2
+	relies := 0
+	if rows, _ := c.JumpTable(); rows != nil {
+		for _, row := range rows {
+			if row.Flags["writes"] {
+				relies++
+			}
+		}
+	}
+	if relies == 0 && !writesGuard {
+		r.Pass(rule, "Run:writes-guard", c.Pos(run.Pos()), "no jump-table row carries writes:true: write protection is decided per handler")
+		return callGuard
+	}
 	r.Check(writesGuard, rule, "Run:writes-guard", c.Pos(run.Pos()),
 		"Run returns ErrWriteProtection on in.readOnly && operation.writes, and that test dominates operation.execute",
-		"Run no longer refuses operation.writes rows under in.readOnly before operation.execute")
+		fmt.Sprintf("Run no longer refuses operation.writes rows under in.readOnly before operation.execute, while %d rows still rely on that flag", relies))
 	return callGuard
 }
 
